@@ -273,7 +273,7 @@ def apply_op(store, op):
         return res, run(lambda: setattr(s, 'phase', op[2]))
     if k == 'phases':
         phs = list(op[2])
-        keep = nonempty_phases(s) + ([] if is_multi(s) else [s.phase])
+        keep = nonempty_phases(s)
         if any(p not in phs for p in keep):
             return ['skip'], None           # would drop or relabel material: C12's domain
         res = ['phases', i, phs]
@@ -295,8 +295,6 @@ def apply_op(store, op):
         o = store[j]
         if pkg_of(s) != pkg_of(o):
             return ['skip'], None
-        if is_multi(o) and not is_multi(s) and s.phase not in o._imol._phases:
-            return ['skip'], None           # Stream.phases setter fails half-way: C12/C13's domain
         if is_multi(o) and is_multi(s) and set(s._imol._phases) != set(o._imol._phases):
             return ['skip'], None           # positional copy after expansion: C13's domain
         if is_multi(s) and not is_multi(o) and o.phase not in s._imol._phase_indexer \
